@@ -69,6 +69,7 @@ type RunResult struct {
 	Cuts         map[string]int    `json:"cuts,omitempty"`
 	Fallbacks    int               `json:"fallback_queries,omitempty"`
 	CrossChecked int               `json:"cross_checked,omitempty"`
+	CrossUnknown int               `json:"cross_unknown,omitempty"`
 	CrossDisagree []string         `json:"cross_disagree,omitempty"`
 	Truncated    bool              `json:"truncated,omitempty"`
 	UncaughtPanics []Violation     `json:"uncaught_panics,omitempty"`
@@ -214,7 +215,10 @@ func (in *Interp) runPath(h *Harness, cfg *RunConfig, item *WorkItem, res *pathR
 				r2, _, out, _ := o.Solve(asserts, nil, cfg.CrossTimeout)
 				p.crossChecked++
 				if r2 == smt.Unknown {
-					p.notes = append(p.notes, fmt.Sprintf("cross-check %s: unknown for %q (%s)", o.Name, label, firstLine(out)))
+					// the deciding solver's verdict stands; the cross-checker merely
+					// could not confirm it within its time limit
+					p.crossUnknown++
+					_ = out
 				} else if r != smt.Unknown && r2 != r {
 					p.crossDisagree = append(p.crossDisagree, fmt.Sprintf("%q: z3=%s %s=%s", label, r, o.Name, r2))
 				}
@@ -423,6 +427,7 @@ func Explore(prog *Program, pool *Pool, cfg RunConfig) (*RunResult, error) {
 				res.Queries += p.oneShotQueries
 				res.SolverTime += p.oneShotTime.Seconds()
 				res.CrossChecked += p.crossChecked
+				res.CrossUnknown += p.crossUnknown
 				res.CrossDisagree = append(res.CrossDisagree, p.crossDisagree...)
 				if res.Paths >= cfg.MaxPaths || (!cfg.Deadline.IsZero() && time.Now().After(cfg.Deadline)) {
 					if len(work) > 0 || active > 0 {
